@@ -45,6 +45,7 @@ var frameAllowed = map[string][]string{
 	"digits.round":             {"d"},
 	"Decimal.digits":           {"digs"},
 	"parseFormat":              {"args"},
+	"verifDecomposeCompose":    {"buf"}, // verif-only client: hands the caller's buffer to Decompose
 }
 
 // methods of *big.Int, *big.Rat and *big.Float that do not modify their receiver
@@ -257,6 +258,63 @@ func frameCheck(w *World) (findings []FrameFinding, nfuncs int, err error) {
 				}
 			}
 		}
+	}
+	// Mode independence: a function that takes the rounding mode as an argument (the *WithMode methods,
+	// Decimal.Round) must not read DefaultRoundingMode, directly or through a callee of this package: its
+	// result is then a function of its arguments alone, and "X equals XWithMode under DefaultRoundingMode"
+	// follows from the wrapper handing on its operands and DefaultRoundingMode (callarg + callres clauses).
+	readsMode := map[*ssa.Function]string{}
+	calls := map[*ssa.Function][]*ssa.Function{}
+	for _, fn := range fns {
+		for _, b := range fn.Blocks {
+			for _, ins := range b.Instrs {
+				for _, op := range ins.Operands(nil) {
+					if g, ok := (*op).(*ssa.Global); ok && g.Name() == "DefaultRoundingMode" {
+						if _, ok := readsMode[fn]; !ok {
+							readsMode[fn] = prog.Fset.Position(ins.Pos()).String()
+						}
+					}
+				}
+				if c, ok := ins.(ssa.CallInstruction); ok {
+					if callee := c.Common().StaticCallee(); callee != nil && (callee.Pkg == pkg || (callee.Origin() != nil && callee.Origin().Pkg == pkg)) {
+						calls[fn] = append(calls[fn], callee)
+					}
+				}
+			}
+		}
+		for _, an := range fn.AnonFuncs {
+			calls[fn] = append(calls[fn], an)
+		}
+	}
+	for _, fn := range fns {
+		takesMode := false
+		for _, prm := range fn.Params {
+			if named, ok := prm.Type().(*types.Named); ok && named.Obj().Name() == "RoundingMode" && prm.Name() != "rm" && fn.Signature.Recv() != nil {
+				takesMode = true
+			}
+		}
+		if !takesMode || fn.Signature.Recv() == nil {
+			continue
+		}
+		if rn, ok := fn.Signature.Recv().Type().(*types.Named); !ok || rn.Obj().Name() != "Decimal" {
+			continue
+		}
+		seen := map[*ssa.Function]bool{}
+		var walk func(f *ssa.Function, via string)
+		walk = func(f *ssa.Function, via string) {
+			if seen[f] {
+				return
+			}
+			seen[f] = true
+			if at, ok := readsMode[f]; ok {
+				findings = append(findings, FrameFinding{Func: fn.String(), Pos: at, What: "takes the rounding mode as an argument but reads DefaultRoundingMode" + via})
+				return
+			}
+			for _, c := range calls[f] {
+				walk(c, " through "+c.String())
+			}
+		}
+		walk(fn, "")
 	}
 	return findings, nfuncs, nil
 }
